@@ -778,6 +778,47 @@ pub enum Hostile {
     AliasChain40,
     /// referral to a name server whose name cannot be resolved
     UnresolvableNs,
+    /// four zones t0..t3.tangle. whose name servers are named in each other (or in themselves, or nowhere), with or
+    /// without glue, and whose servers are honest, lame, failing or silent - all derived from the seed
+    Tangle(u64),
+}
+
+impl Hostile {
+    pub fn class(&self) -> &'static str {
+        match self {
+            Hostile::None => "None",
+            Hostile::SlowEverything => "SlowEverything",
+            Hostile::CircularReferral => "CircularReferral",
+            Hostile::AliasLoop => "AliasLoop",
+            Hostile::AliasChain40 => "AliasChain40",
+            Hostile::UnresolvableNs => "UnresolvableNs",
+            Hostile::Tangle(_) => "Tangle",
+        }
+    }
+}
+
+/// The tangle a seed stands for: per zone its NS set as (zone whose name the server carries, 9 = a name that does not
+/// exist; glue supplied?) and per zone how its server behaves (0 honest, 1 REFUSED, 2 SERVFAIL, 3 silent, 4 aliases
+/// its own name-server name to another zone's).
+pub struct Tangle {
+    pub ns: Vec<Vec<(u8, bool)>>,
+    pub behave: Vec<u8>,
+}
+
+pub fn tangle_of(seed: u64) -> Tangle {
+    let mut r = Rng::new(seed ^ 0x7a6e_61);
+    let mut ns = Vec::new();
+    let mut behave = Vec::new();
+    for _ in 0..4 {
+        let k = r.range(1, 3);
+        ns.push((0..k).map(|_| (if r.chance(1, 8) { 9u8 } else { r.below(4) as u8 }, r.chance(1, 3))).collect());
+        behave.push(*r.pick(&[0u8, 0, 0, 1, 1, 2, 3, 4]));
+    }
+    Tangle { ns, behave }
+}
+
+pub fn tangle_server(j: u8) -> Ipv4Addr {
+    Ipv4Addr::new(203, 0, 113, 20 + j)
 }
 
 pub struct C08Net {
@@ -799,6 +840,7 @@ pub fn c08_responder(mut net: C08Net) -> Responder {
         }
         let q = req.questions[0].clone();
         let mut honest = net.u.serve(ctx.addr.ip(), &q);
+        let mut forced: Option<Fault> = None;
         // hostile universes rewrite the honest answer
         match net.hostile {
             Hostile::CircularReferral => {
@@ -866,6 +908,60 @@ pub fn c08_responder(mut net: C08Net) -> Responder {
                     };
                 }
             }
+            Hostile::Tangle(seed) => {
+                if is_suffix(&q.name, &dn("tangle.")) {
+                    let t = tangle_of(seed);
+                    let me = (0..4u8).find(|j| ctx.addr.ip() == IpAddr::V4(tangle_server(*j)));
+                    // which zone is the name in?
+                    let labels = show_name(&q.name);
+                    let zi: Option<u8> = labels.trim_end_matches('.').rsplit('.').nth(1).and_then(|l| l.strip_prefix('t')).and_then(|d| d.parse().ok()).filter(|d| *d < 4);
+                    let plain = |rcode: Rcode, aa: bool, answers: Vec<ResourceRecord>, kind: &'static str| universe::ServerReply {
+                        rcode,
+                        aa,
+                        answers,
+                        authority: vec![],
+                        additional: vec![],
+                        zone_depth: None,
+                        kind,
+                    };
+                    honest = match (me, zi) {
+                        (Some(j), Some(i)) if i == j => match t.behave[j as usize] {
+                            0 if q.qtype == qt(RecordType::A) => plain(Rcode::NoError, true, vec![rr(&q.name, a(Ipv4Addr::new(10, 77, j, 1)), 300)], "tangle-answer"),
+                            0 => plain(Rcode::NoError, true, vec![], "tangle-nodata"),
+                            1 => plain(Rcode::Refused, false, vec![], "tangle-refused"),
+                            2 => plain(Rcode::ServerFailure, false, vec![], "tangle-servfail"),
+                            3 => {
+                                forced = Some(Fault::Drop);
+                                plain(Rcode::NoError, false, vec![], "tangle-silent")
+                            }
+                            _ => plain(Rcode::NoError, true, vec![rr(&q.name, cname(&dn(&format!("ns.t{}.tangle.", (j + 1) % 4))), 300)], "tangle-alias"),
+                        },
+                        (Some(_), _) => plain(Rcode::Refused, false, vec![], "tangle-not-my-zone"),
+                        (None, Some(i)) => {
+                            let apex = dn(&format!("t{i}.tangle."));
+                            let mut authority = Vec::new();
+                            let mut additional = Vec::new();
+                            for (target, glue) in &t.ns[i as usize] {
+                                let host = if *target == 9 { dn("ns.nowhere.tangle.") } else { dn(&format!("ns.t{target}.tangle.")) };
+                                authority.push(rr(&apex, ns(&host), 300));
+                                if *glue && *target != 9 {
+                                    additional.push(rr(&host, a(tangle_server(*target)), 300));
+                                }
+                            }
+                            universe::ServerReply {
+                                rcode: Rcode::NoError,
+                                aa: false,
+                                answers: vec![],
+                                authority,
+                                additional,
+                                zone_depth: None,
+                                kind: "tangle-referral",
+                            }
+                        }
+                        (None, None) => plain(Rcode::NameError, true, vec![], "tangle-nxdomain"),
+                    };
+                }
+            }
             Hostile::UnresolvableNs => {
                 if is_suffix(&q.name, &dn("orphan.")) {
                     honest = universe::ServerReply {
@@ -889,6 +985,7 @@ pub fn c08_responder(mut net: C08Net) -> Responder {
         } else {
             net.plan.get(ctx.index).copied().unwrap_or(net.after_plan)
         };
+        let fault = forced.unwrap_or(fault);
         let action = apply_fault(fault, req, &honest, &mut net.rng);
         if let Action::Reply(b) | Action::ReplyAfter(_, b) = &action {
             net.supplied.lock().unwrap().add_bytes(ctx.transport, b);
@@ -1138,6 +1235,7 @@ fn c08(args: Args) {
                 2 => Hostile::AliasLoop,
                 3 => Hostile::AliasChain40,
                 4 => Hostile::UnresolvableNs,
+                5 | 6 => Hostile::Tangle(rng.next_u64()),
                 _ => Hostile::None,
             };
             let q = match hostile {
@@ -1145,11 +1243,14 @@ fn c08(args: Args) {
                 Hostile::AliasLoop => question(&dn("l0.loop."), qt(RecordType::A)),
                 Hostile::AliasChain40 => question(&dn("c0.chain."), qt(RecordType::A)),
                 Hostile::UnresolvableNs => question(&dn("www.orphan."), qt(RecordType::A)),
+                Hostile::Tangle(_) => question(&dn(&format!("{}.t{}.tangle.", rng.pick(&["www", "ns"]), rng.below(4))), qt(*rng.pick(&[RecordType::A, RecordType::A, RecordType::MX]))),
                 _ => universe::questions(&mut rng, &u, 1).pop().unwrap(),
             };
-            let len = rng.below(41);
+            // a tangle supplies its own faults: two runs in three leave the exchanges themselves alone
+            let quiet = matches!(hostile, Hostile::Tangle(_)) && rng.chance(2, 3);
+            let len = if quiet { 0 } else { rng.below(41) };
             let plan: Vec<Fault> = (0..len).map(|_| if rng.chance(1, 2) { Fault::Ok } else { *rng.pick(&ALL_FAULTS) }).collect();
-            let after = if rng.chance(1, 2) { Fault::Ok } else { *rng.pick(&ALL_FAULTS) };
+            let after = if quiet || rng.chance(1, 2) { Fault::Ok } else { *rng.pick(&ALL_FAULTS) };
             let forwarding = rng.chance(1, 4) && hostile == Hostile::None;
             let mode = if forwarding { Mode::forwarding(fwd_addr) } else { Mode::recursive(ProtocolMode::OnlyV4, 53) };
             let cache = SharedCache::new();
@@ -1179,7 +1280,7 @@ fn c08(args: Args) {
                 };
                 c08_check(&out, &supplied.lock().unwrap(), &local, sh, &replay, &mode);
                 sh.count("runs:random", 1);
-                sh.count(&format!("hostile:{hostile:?}"), 1);
+                sh.count(&format!("hostile:{}", hostile.class()), 1);
                 if out.elapsed >= Duration::from_secs(60) {
                     sh.count("runs-ended-by-the-60s-budget", 1);
                 }
